@@ -112,7 +112,7 @@ def rand_history(rng):
 
 def gen(rng, tier):
     cases = []
-    count = 600 if tier == "quick" else 8000
+    count = 800 if tier == "quick" else 30000
     for k in range(count):
         cases.append(("aevents", "e%d" % k, rand_history(rng)))
     if tier == "thorough":
